@@ -27,6 +27,7 @@ RULE = (
     "(every set with a correlation rule)."
 )
 RULE += (" " + 'References by id are also spelled in upper case, braced and without dashes; a set whose references all resolve must load (a load error needs a dangling reference).')
+RULE += (" Temporal correlation rules also use extended string conditions over rule names, with and without a rules key.")
 ASSUMPTIONS = [
     "queries are compared as strings of the shipped TextQueryTestBackend (isolation, not semantics)",
     "rules referenced both with and without generate are not asserted (unspecified)",
@@ -55,8 +56,23 @@ def plain_rule(i: int, with_id=True, with_name=True):
     return d
 
 
-def corr_rule(j: int, refs: list[str], ctype: str = "event_count", generate: bool = False):
+def _refs(d: dict) -> list[str]:
+    """The rules a correlation document refers to: its rules list, or (extended condition without a
+    rules key) the rule names of the condition string."""
+    c = d["correlation"]
+    if "rules" in c:
+        return c["rules"] if isinstance(c["rules"], list) else [c["rules"]]
+    import re as _re
+    return list(dict.fromkeys(t for t in _re.findall(r"[^\s()]+", c["condition"]) if t not in ("and", "or", "not")))
+
+
+def corr_rule(j: int, refs: list[str], ctype: str = "event_count", generate: bool = False, ext: str | None = None):
     c = {"type": ctype, "rules": refs, "timespan": "5m", "group-by": ["user"]}
+    if ext is not None and ctype in ("temporal", "temporal_ordered") and all(not r[0].isdigit() and "-" not in r and "{" not in r for r in refs):
+        # extended condition over rule names; "norules" additionally omits the rules key
+        c["condition"] = refs[0] + "".join(f" {'and' if i % 2 else 'or'} {'not ' if ext == 'neg' and i == 1 else ''}{r}" for i, r in enumerate(refs[1:], 1))
+        if ext in ("norules", "neg"):
+            del c["rules"]
     if ctype == "event_count":
         c["condition"] = {"gte": 2 + j}
     elif ctype == "value_count":
@@ -129,7 +145,7 @@ def expected_emitters(docs):
     dangling = False
     for d in docs:
         if "correlation" in d:
-            for r in d["correlation"]["rules"]:
+            for r in _refs(d):
                 t = by_key.get(_canon(r))
                 if t is None:
                     dangling = True
@@ -226,6 +242,8 @@ def fixed_sets():
     yield [r[0], corr_rule(0, ["r0"]), corr_rule(1, ["r0"], generate=True)]
     yield [r[0], r[1], corr_rule(0, ["r0", "missing"], "temporal")]
     yield [r[0], r[1], r[2], r[3]]
+    yield [r[0], r[1], corr_rule(0, ["r0", "r1"], "temporal", ext="norules"), r[2]]
+    yield [r[0], r[1], r[2], corr_rule(0, ["r1", "r0", "r2"], "temporal_ordered", ext="neg"), corr_rule(1, ["c0"])]
     yield [r[0], corr_rule(0, ["r0"], "value_count"), r[1], corr_rule(1, ["r1"], generate=True), r[2]]
 
 
@@ -259,7 +277,7 @@ def random_sets(draw):
         if draw(st.integers(0, 9)) == 0:
             refs.append("missing_rule")
         ctype = draw(st.sampled_from(["event_count", "temporal", "temporal_ordered", "value_count"]))
-        corrs.append(corr_rule(j, refs, ctype, generate=draw(st.booleans())))
+        corrs.append(corr_rule(j, refs, ctype, generate=draw(st.booleans()), ext=draw(st.sampled_from([None, None, "rules", "norules", "neg"]))))
     docs = plains + corrs
     n = len(docs)
     path = draw(st.sampled_from(["dicts", "yaml", "merge", "files"]))
